@@ -689,7 +689,7 @@ func (lb *LoadBalancer) findHealthyBackend(r *http.Request) *Backend {
 func (lb *LoadBalancer) proxyRequest(backend *Backend, w http.ResponseWriter, r *http.Request, startTime time.Time) error {
 	// Track the active connection
 	backend.IncrementConnections()
-	lb.metricsCollector.UpdateBackendConnections(backend.Name, backend.GetActiveConnections())
+	lb.metricsCollector.SyncBackendConnections(backend.Name, backend.GetActiveConnections)
 
 	// Create a custom response writer to capture the status code
 	rw := &responseWriter{
@@ -705,7 +705,7 @@ func (lb *LoadBalancer) proxyRequest(backend *Backend, w http.ResponseWriter, r 
 	defer func() {
 		// Decrement the connection count when done
 		backend.DecrementConnections()
-		lb.metricsCollector.UpdateBackendConnections(backend.Name, backend.GetActiveConnections())
+		lb.metricsCollector.SyncBackendConnections(backend.Name, backend.GetActiveConnections)
 
 		// Record metrics and handle passive health checks
 		statusCode := rw.statusCode
